@@ -52,6 +52,18 @@ TEXTS = {
                 "by correspondence and by evaluating spec_C19 on the crate's observations.",
         "design_ref": "DESIGN.md §4 C19", "note": NOTE_COMMON, "technique": TECH,
     },
+    "C04": {
+        "text": "Theorems (Properties/C04.v, about the Gallina transcription of defaults.rs, in EVERY number structure): a term compared with "
+                "itself scores 1 for GraphIC / Jiang-Conrath / Mutation; two distinct unannotated terms score 0 for Mutation; Distance ignores "
+                "the kind; the zero-denominator guards of Lin and JC; Resnik is 0 or the IC of a common ancestor (selves included). PARTIAL: "
+                "'value of the documented formula', symmetry, finite and >= 0 are decided per input by spec_C04, which recomputes all 24 scores "
+                "of every ordered pair from the crate's own observation (ancestor sets, ICs, shortest distances, annotation sets) in binary32 "
+                "and demands bit equality, equality under argument swap, no NaN / infinity / negative value and the special cases; the "
+                "transcription is diffed bit for bit against the crate. No theorem covers float rounding / overflow; expf is an oracle.",
+        "design_ref": "DESIGN.md §4 C04",
+        "note": NOTE_COMMON + "Flocq binary32 = Rust f32 arithmetic; logf / expf sampled.",
+        "technique": TECH,
+    },
     "C05": {
         "text": "Theorems (Properties/C05.v, about the Gallina transcription, all sizes): Matrix::rows / cols (range slicing, skip + step_by) are "
                 "exactly row i = data[i*c+j], column j = data[i*c+j]; SimilarityCombiner::calculate (binary32 instance) equals the documented "
